@@ -62,7 +62,11 @@ Record cfg := mkCfg {
      decrement * #interfaces >= 2^31).  The property does not constrain those values (config validation
      keeps priorities in 1..255), so the model takes them from the implementation; every theorem quantifies
      over all [cfg], hence over every such function. *)
-  c_over : Z -> Z }.
+  c_over : Z -> Z;
+  (* implementation choice: a notification that does not change the down count (repeated down, delete after
+     down, up of an interface that is not down) may skip AdjustPriority.  Inside the no-overflow domain both
+     choices give the same priority (C10_effective_priority holds for either). *)
+  c_coalesce : bool }.
 
 (* the configuration cannot overflow the int32 arithmetic of handleInterfaceEvent / AdjustPriority *)
 Definition cfg_smallb (c : cfg) : bool :=
@@ -169,6 +173,10 @@ Definition over_int32 (prio dec : Z) (cnt : Z) : Z :=
   let newp := i32 (i32 prio + i32 (i32 (- i32 dec) * i32 cnt)) in
   if newp <? 0 then 0 else newp.
 
+(* handleInterfaceEvent: AdjustPriority after the count update n0 -> n1, unless coalesced *)
+Definition adjust_or_skip (c : cfg) (n0 n1 : node) (delta : Z) : node :=
+  if c_coalesce c && (n_cnt n1 =? n_cnt n0) then n1 else adjust_priority c n1 delta.
+
 (* PeerHeartbeatUpdate *)
 Definition hb_update (v : variant) (c : cfg) (n : node) (p : Z) (peerid : list N) (ps : sst)
   : node * list trans :=
@@ -239,18 +247,9 @@ Definition if_delta (c : cfg) (n : node) : Z := i32 (i32 (- i32 (c_dec c)) * i32
 Definition handle_if (v : variant) (c : cfg) (n : node) (k : nat) (down : bool)
   : node * list trans :=
   if negb (tracked c k) then (n, []) else
-  let n :=
-    if fix_if v then
-      if Bool.eqb down (mem_nat k (n_down n)) then n
-      else if down then set_track n (n_cnt n + 1) (k :: n_down n)
-           else set_track n (n_cnt n - 1) (remove_nat k (n_down n))
-    else
-      if down then set_track n (n_cnt n + 1) (n_down n)
-      else if 0 <? n_cnt n then set_track n (n_cnt n - 1) (n_down n)
-           else n in
-  let delta := i32 (i32 (- i32 (c_dec c)) * i32 (n_cnt n)) in
-  let n := adjust_priority c n delta in
-  if down && sst_eqb (n_st n) StandbyAlone then tracker_promote n else (n, []).
+  let n1 := track_update v n k down in
+  let n2 := adjust_or_skip c n n1 (if_delta c n1) in
+  if down && sst_eqb (n_st n2) StandbyAlone then tracker_promote n2 else (n2, []).
 
 (* ---- the pair ---- *)
 Inductive who := A | B.
